@@ -90,7 +90,7 @@ func TestVerifC18Bucket(t *testing.T) {
 		w.Write([]byte("sibling"))
 		w.Close()
 		model := map[string][]byte{}
-		overwrote, partial, conflictSeen := false, false, false
+		overwrote, partial, conflictSeen, copied := false, false, false, false
 		var trace []string
 		t.Repeat(map[string]func(*rapid.T){
 			"write": func(t *rapid.T) {
@@ -123,6 +123,51 @@ func TestVerifC18Bucket(t *testing.T) {
 				}
 				model[name] = data
 				trace = append(trace, "write("+name+")")
+			},
+			"copy": func(t *rapid.T) {
+				// Copy (what the worker's copy handler does) writes the destination; afterwards the two
+				// objects are independent: overwriting one must not change the other
+				if len(model) == 0 {
+					t.Skip("nothing to copy")
+				}
+				ks := keys(model)
+				src := ks[rapid.IntRange(0, len(ks)-1).Draw(t, "src")]
+				dst := c18Name().Draw(t, "dst")
+				if rapid.Bool().Draw(t, "ontoExisting") {
+					dst = ks[rapid.IntRange(0, len(ks)-1).Draw(t, "dstK")]
+				}
+				if dst == src {
+					return
+				}
+				conflict := c18Conflict(model, dst)
+				err := Copy(ctx, b.Object(dst), b.Object(src))
+				if err != nil {
+					if !conflict {
+						t.Fatalf("copying %q to %q: %v", src, dst, err)
+					}
+					conflictSeen = true
+					return
+				}
+				if conflict {
+					t.Fatalf("copying onto %q succeeded although %v are stored (file/directory conflict)", dst, keys(model))
+				}
+				model[dst] = append([]byte(nil), model[src]...)
+				copied = true
+				trace = append(trace, "copy("+src+"->"+dst+")")
+			},
+			"": func(t *rapid.T) {
+				// every stored object still reads back as last written
+				for name, want := range model {
+					r, err := b.Object(name).NewReader(ctx)
+					if err != nil {
+						t.Fatalf("after %v: reading %q: %v", trace, name, err)
+					}
+					got, err := io.ReadAll(r)
+					r.Close()
+					if err != nil || !bytes.Equal(got, want) {
+						t.Fatalf("after %v: object %q reads back as %d bytes (%.20q...), last written were %d bytes (%.20q...)", trace, name, len(got), got, len(want), want)
+					}
+				}
 			},
 			"read": func(t *rapid.T) {
 				var name string
@@ -207,7 +252,7 @@ func TestVerifC18Bucket(t *testing.T) {
 			t.Fatalf("sibling bucket changed: %v", got)
 		}
 		vstats.Case(fmt.Sprintf("bucket=%s ops=%v", bname, trace), partial && overwrote, fmt.Sprintf("partial:%v", partial),
-			fmt.Sprintf("overwrote:%v", overwrote), fmt.Sprintf("conflict:%v", conflictSeen))
+			fmt.Sprintf("overwrote:%v", overwrote), fmt.Sprintf("conflict:%v", conflictSeen), fmt.Sprintf("copied:%v", copied))
 	})
 }
 
